@@ -116,7 +116,7 @@ def run_case(case):
     nontrivial_laws = [c for c in laws if sum(1 for v in c if v) >= 2]
     state = gen.state_of(desc)
     _, mag = ref.rate_law(desc, state, None)
-    maxrate = max([m / (abs(s_) + 1.0) for m, s_ in zip(mag, state)] + [1e-3])
+    maxrate = ref.max_rate(desc, state)
     dt = 0.02 / maxrate
     for kind_ in engines.KINDS:
         exact_units = r.random() < 0.7 or kind_ != "euler"
